@@ -1,9 +1,9 @@
 (* Props/C19.v -- stabilizer-group sampling and classical-shadow snapshots agree with the state.  Property theorems only.
    The drawn selection matrix is an input of the model (sample_rows t C).  PARTIAL: uniformity of numpy.random.randint is assumed; proved is that the map selection -> group
-   element is injective (so a uniform selection is a uniform group element).  Snapshot overlap with the measured state is positive because the realised outcomes have
-   probability 2^lp > 0 (C06); proved here is validity of the snapshot; "stabilized up to sign by the back-evolved basis" follows from C06 (every measured generator is
-   afterwards a stabilizer up to sign) and is compared on the implementation by the correspondence check. *)
-From PC Require Import Model.Base Model.Pauli Model.Tableau Model.Sample Model.Spec Proofs.MeasureFacts Proofs.SampleFacts.
+   element is injective (so a uniform selection is a uniform group element).  Proved for snapshots (Proofs/SnapshotFacts.v): validity; every stabilizer of the
+   back-evolved basis, with the recorded sign, is in the snapshot's group (it is an eigenstate of the whole basis); Tr(rho_base rho_snapshot) = 2^lp 2^-r' > 0; purity for a pure basis. *)
+From Coq Require Import QArith Qcanon.
+From PC Require Import Model.Base Model.Pauli Model.Ket Model.PolySem Model.Tableau Model.Sample Model.Spec Proofs.MeasureFacts Proofs.SampleFacts Proofs.TraceFacts Proofs.OverlapFacts Proofs.MeasureCircuitFacts Proofs.JointBornFacts Proofs.SnapshotFacts.
 Open Scope Z_scope.
 
 Theorem C19_samples_are_group_elements : forall n t C a, tableau_ok n t -> Forall (fun sel => length sel = (n - rk t)%nat) C ->
@@ -35,5 +35,40 @@ Theorem C19_snapshot_valid : forall n base povm coins, tableau_ok n base -> tabl
   tableau_ok n (fst (fst (snapshot base povm coins))).
 Proof. exact snapshot_ok. Qed.
 Print Assumptions C19_snapshot_valid.
+(* STABILIZED UP TO SIGN BY THE BACK-EVOLVED BASIS: every stabilizer of the basis state, carrying the recorded outcome as its sign, is an element of the snapshot's
+   stabilizer group (one outcome bit per stabilizer, log2-probability <= 0) *)
+Theorem C19_snapshot_stabilized_by_the_basis : forall n base povm coins, tableau_ok n base -> tableau_ok n povm -> bit_coins coins ->
+  (length (stabilizers povm) <= length coins)%nat ->
+  let '(t', outs, lp) := snapshot base povm coins in
+  tableau_ok n t' /\ length outs = length (stabilizers povm) /\ Forall (fun b => b = 0 \/ b = 1) outs /\ lp <= 0 /\
+  Forall (fun so => in_group n t' so) (signed_list (stabilizers povm) outs).
+Proof. exact snapshot_stabilized. Qed.
+Print Assumptions C19_snapshot_stabilized_by_the_basis.
+(* ... so the snapshot is an eigenstate of the whole basis: measuring the basis again is deterministic and returns the same record *)
+Theorem C19_snapshot_is_an_eigenstate_of_the_basis : forall n base povm coins, tableau_ok n base -> tableau_ok n povm -> bit_coins coins ->
+  (length (stabilizers povm) <= length coins)%nat ->
+  let '(t', outs, lp) := snapshot base povm coins in
+  forall coins2, bit_coins coins2 -> measure t' (stabilizers povm) coins2 = (t', outs, 0, coins2).
+Proof. exact snapshot_is_eigenstate. Qed.
+Print Assumptions C19_snapshot_is_an_eigenstate_of_the_basis.
+(* NON-ZERO OVERLAP WITH THE MEASURED STATE: Tr(rho_base rho_snapshot) = 2^lp 2^-r' , a positive real *)
+Theorem C19_snapshot_overlap_value : forall n base povm coins, tableau_ok n base -> tableau_ok n povm -> bit_coins coins ->
+  (length (stabilizers povm) <= length coins)%nat ->
+  let '(t', outs, lp) := snapshot base povm coins in
+  trace_sem n (pmulp (density_poly base) (density_poly t')) = cmul (half_pow (Z.to_nat (- lp))) (half_pow (rk t')).
+Proof. exact snapshot_overlap_value. Qed.
+Print Assumptions C19_snapshot_overlap_value.
+Theorem C19_snapshot_overlaps_the_measured_state : forall n base povm coins, tableau_ok n base -> tableau_ok n povm -> bit_coins coins ->
+  (length (stabilizers povm) <= length coins)%nat ->
+  let '(t', outs, lp) := snapshot base povm coins in
+  exists x : Qc, (0 < x)%Qc /\ trace_sem n (pmulp (density_poly base) (density_poly t')) = (x, 0%Qc).
+Proof. exact snapshot_overlap_positive. Qed.
+Print Assumptions C19_snapshot_overlaps_the_measured_state.
+(* for a PURE basis state (the back-evolved computational basis state) the snapshot is pure, whatever the rank of the measured state *)
+Theorem C19_snapshot_of_a_pure_basis_is_pure : forall n base povm coins, tableau_ok n base -> tableau_ok n povm -> rk povm = 0%nat ->
+  bit_coins coins -> (n <= length coins)%nat ->
+  let '(t', outs, lp) := snapshot base povm coins in rk t' = 0%nat.
+Proof. exact snapshot_pure. Qed.
+Print Assumptions C19_snapshot_of_a_pure_basis_is_pure.
 Example C19_corner : density_terms (mixed_state 2) = [(id_str 2, 0)].
 Proof. vm_compute. reflexivity. Qed.
